@@ -184,27 +184,27 @@ func (f *freezeConn) forceClose() error {
 // ---- the world -----------------------------------------------------------------------------
 
 type mwConn struct {
-	cid      int
-	prov     *trackedConn   // pipe mode: the end handed to the code under test
-	harn     net.Conn       // the harness end (pipe end behind a freezeConn, or the dialled TCP conn)
-	frz      *freezeConn    // pipe mode only
-	sess     *yamux.Session // pipe mode: the session the harness's sessionFn created for the code under test
-	sessFail bool           // pipe mode: sessionFn must fail on this connection
-	peer     *yamux.Session // the harness's own yamux session on its end (healthy peers)
-	srv      *grpc.Server   // C11: echo server on the peer session
-	lis      *countingListener
-	handed   bool // passed to addNewMux
-	lateAdd  bool // ... after the lifetime had ended
+	cid          int
+	prov         *trackedConn   // pipe mode: the end handed to the code under test
+	harn         net.Conn       // the harness end (pipe end behind a freezeConn, or the dialled TCP conn)
+	frz          *freezeConn    // pipe mode only
+	sess         *yamux.Session // pipe mode: the session the harness's sessionFn created for the code under test
+	sessFail     bool           // pipe mode: sessionFn must fail on this connection
+	peer         *yamux.Session // the harness's own yamux session on its end (healthy peers)
+	srv          *grpc.Server   // C11: echo server on the peer session
+	lis          *countingListener
+	handed       bool          // passed to addNewMux
+	lateAdd      bool          // ... after the lifetime had ended
 	peerReady    chan struct{} // closed once m.peer is set (the harness session answers pings before startPeer has returned)
-	dieBeforeAdd bool // the peer answers the first ping and hangs up before addNewMux looks at the session
-	hiccup       bool // the link stalls for 11 s right after the provider's handshake ping was answered: the session's first health-check ping times out, the session survives
-	muxID    string
-	harnShut bool // the harness closed / abandoned its end itself
-	sawEOF   atomic.Bool
+	dieBeforeAdd bool          // the peer answers the first ping and hangs up before addNewMux looks at the session
+	hiccup       bool          // the link stalls for 11 s right after the provider's handshake ping was answered: the session's first health-check ping times out, the session survives
+	muxID        string
+	harnShut     bool // the harness closed / abandoned its end itself
+	sawEOF       atomic.Bool
 }
 
 type muxWorld struct {
-	t0 time.Time // when the manager was started (its housekeeping ticker fires every minute from here)
+	t0        time.Time // when the manager was started (its housekeeping ticker fires every minute from here)
 	t         *testing.T
 	n         int
 	role      string
